@@ -38,6 +38,10 @@ CLAIMED.update({
          "pure exporters for-all within bounds; C-backed exporters (lxml, rdflib, networkx, pydot) on one representative per construction path; determinism across processes / hash seeds outside the claim"),
  "C16": ("exhaustive enumeration, by the path search, of the 960 configurations format x destination kind x source kind x prov.read with/without format x 6 non-ASCII document variants; each configuration is executed on the unmodified build (real streams and files) and compared strictly", "4/C16",
          "the weakest use of the technique: no symbolic content, the solver only enumerates the finite configuration space (stated in DESIGN.md); RDF compared against unified()"),
+ "C07": ("exhaustive enumeration, by the path search, of the structural space of PROV-O-expressible documents (14 relation kinds x identified/anonymous x optional-argument masks x 0-2 extra attributes of 11 kinds x element attributes/times x document/bundle x a second relation); every configuration is written as TriG and read back by the real rdflib stack on the unmodified build and compared (set-based, strict) with unified()", "4/C07",
+         "weakest fit (stated in DESIGN.md): rdflib is entered at the first statement, so there is no symbolic content - the solver only enumerates the finite structural space; the quantifier's exclusions are assumptions; one known finding (attributed-anonymous + plain relation of one kind on one subject)"),
+ "C11": ("bounded model checking of the PROV-JSON decoder on foreign input: a specification-driven generator builds container trees the writer never produces (20 value spellings, array-wrapped single values, multi-entity memberships, record arrays, bundle prefix blocks) with symbolic contents; z3 shows on every path: library error, or strict content == the tree's denotation by an independent reader and decode(encode(d)) == d; witnesses also cross JSON text and JSON->XML; PROV-XML: choice-complete specification-driven texts on the real lxml stack", "4/C11",
+         "JSON container level for-all within bounds; XML and cross-format on witnesses (PATH_COMPLETE); NOT claimed: single-point mutations of the 398+45 corpus files (file enumeration, not a solver question)"),
 })
 NA = {}
 props = [json.loads(l) for l in open(os.path.join(V, "properties.jsonl"))]
